@@ -112,6 +112,8 @@ def oracle(h, prop):
                     return i, "transient store holds %d entries after Commit" % tr, {"kind": "transient-not-empty"}
                 if conts != work:
                     return i, "content after Commit differs from what was written", {"kind": "content-wrong"}
+            if prop == "C01" and twin != "true":
+                return i, "two instances fed the same writes committed different hashes", {"kind": "hash-diverged"}
             if prop == "C13" and twin != "true":
                 return i, "after an interrupted commit the instance commits a different hash than an uninterrupted run", \
                     {"kind": "replay-hash", "after_crash_at_version_zero": crash_at_zero}
@@ -121,6 +123,8 @@ def oracle(h, prop):
             committed[ver] = {n: dict(d) for n, d in work.items()}
             pending = []
         elif k == "X":
+            if prop == "C01":
+                break          # interrupted commits are C13's subject
             old = cur
             new_state = {n: dict(d) for n, d in work.items()}
             if res.startswith("nocrash"):
